@@ -186,7 +186,7 @@ CHECKS["C13"]["runs"] += [gz("VerifZlReset", {"dict": d, "hist": h}, {"N": 3, "M
 CHECKS["C17"] = {
     "level": "other",
     "explanation": "Schedules are not explored. Decided instead, per path of a bounded symbolic run of two instance workloads (verifrt.Parallel): (i) no store to memory reachable from package-level state outside package initialisation and sync.Once bodies, (ii) the objects written through one instance are disjoint from everything read or written through the other. (i)+(ii) is the standard sufficient condition for schedule independence and race freedom of the encoded Go code; every explored path witness is additionally run natively with the two workloads in concurrent goroutines under the Go race detector.",
-    "runs": [gz("VerifInstances", {"pair": p}, {"N": 2}, ["C17:"], ["ran"]) for p in range(8)],
+    "runs": [gz("VerifInstances", {"pair": p}, {"N": 2}, ["C17:"], ["ran"]) for p in range(9)],
     "assumptions": ["footprints of assembly routines, of the runtime and of the standard library's delegate writers beyond what the engine executes are outside the claim",
                     "a sync.Mutex/RWMutex on a path is reported as inconclusive, sync.Once bodies are treated as synchronised"],
 }
